@@ -167,6 +167,8 @@ def run_shard(sink, tier, seed, shard):  # noqa: C901
             if pickles and len(batch) < n_child and not unpicklable:
                 batch.append(dict(case=('c11', seed, idx, o.key()), profile=profile, size_budget=SIZE, pickles=pickles,
                                   custom=sorted(custom_types(ref.shape, o.namespace)), obs=base, ident=ident))
+    for idx in range(i0, harness.scale(300, 6000, tier), step):
+        sink.guard('harness', 'history', dict(index=idx), lambda: history_case(sink, seed, idx))
     # ---- fresh interpreters
     work = tempfile.mkdtemp(prefix='c11-', dir=os.path.join(verdict.VERIF, '.work'))
     try:
@@ -208,6 +210,77 @@ def run_shard(sink, tier, seed, shard):  # noqa: C901
     sink.extra['child_cases'] = len(batch)
 
 
+def history_case(sink, seed, idx):  # noqa: C901
+    """The loading process has a registry HISTORY: a treespec was already unpickled (and is still alive) before the custom type is
+    unregistered / re-registered / shadowed.  Whatever the engine remembers from the first load must not decide the later ones."""
+    rng = gen.case_rng(seed, 'c11hist', idx)
+    ns = rng.choice(['', 'c11ns'])
+
+    class Loc(U.CBase):
+        __slots__ = ()
+
+    Loc.__name__ = Loc.__qualname__ = f'C11Loc{idx}'
+    globals()[Loc.__name__] = Loc  # picklable by reference
+    Loc.__module__ = __name__
+
+    def fl(o):
+        return tuple(o.kids), ('Loc', o.meta), None
+
+    def un_a(m, c):
+        return Loc(c, ('A', m[1]))
+
+    def un_b(m, c):
+        return Loc(c, ('B', m[1]))
+
+    nsarg = ns or GLOBAL
+    ident = dict(gen='c11hist', seed=seed, index=idx, ns=ns)
+    registered = False
+    try:
+        optree.register_pytree_node(Loc, fl, un_a, namespace=nsarg)
+        registered = True
+        tree = [Loc([U.Leaf(1), {'k': Loc([U.Leaf(2)], meta='inner')}], meta=idx), U.Leaf(3)]
+        s = optree.tree_structure(tree, namespace=ns)
+        data = {p: pickle.dumps(s, p) for p in range(2, pickle.HIGHEST_PROTOCOL + 1)}
+        proto = rng.choice(sorted(data))
+        first = pickle.loads(data[proto])  # kept alive on purpose
+        sink.check(first == s and obs(first) == obs(s), 'history/first-load', 'loads(dumps(s)) equals s', ident)
+        keep = [first, s] if rng.random() < 0.7 else []
+        # (1) unregistered: loading must raise
+        optree.unregister_pytree_node(Loc, namespace=nsarg)
+        registered = False
+        for p, d in data.items():
+            try:
+                got = pickle.loads(d)
+                out = 'loaded ' + repr(got)[:120]
+            except Exception as e:  # noqa: BLE001
+                out = 'raised'
+            sink.check(out == 'raised', 'history/unregistered-type-loads', 'loading raises when the custom type is not registered in the recorded namespace (also after an earlier successful load)', dict(ident, proto=p), out)
+        # (2) registered again with other functions / path entry type: equal to a treespec flattened afresh, and bound to the NEW registration
+        optree.register_pytree_node(Loc, fl, un_b, path_entry_type=optree.GetItemEntry, namespace=nsarg)
+        registered = True
+        fresh = optree.tree_structure(tree, namespace=ns)
+        for p, d in data.items():
+            try:
+                got = pickle.loads(d)
+            except Exception as e:  # noqa: BLE001
+                sink.violation('history/re-registered-type-raises', 'loading works again once the type is registered again', dict(ident, proto=p), repr(e)[:200])
+                continue
+            rebuilt = got.unflatten([U.Leaf(7), U.Leaf(8), U.Leaf(9)])
+            ok = got == fresh and fresh == got and hash(got) == hash(fresh) and obs(got) == obs(fresh) and rebuilt[0].meta[0] == 'B' and type(got.accessors()[0][1]) is optree.GetItemEntry
+            sink.check(ok, 'history/re-registered-type', 'after unregister + register the loaded treespec equals one flattened afresh and uses the new registration', dict(ident, proto=p),
+                       lambda: (repr(got)[:150], repr(rebuilt)[:150], [type(e_).__name__ for e_ in got.accessors()[0]]))
+        sink.count('history-cases')
+        del keep
+    finally:
+        if registered:
+            try:
+                optree.unregister_pytree_node(Loc, namespace=nsarg)
+            except Exception:  # noqa: BLE001
+                pass
+        globals().pop(Loc.__name__, None)
+    sink.case(harness.fp('hist', idx % 50, ns), True, ident if idx < 2 else None)
+
+
 def _tuplify(x):
     return tuple(map(_tuplify, x)) if isinstance(x, (list, tuple)) else x
 
@@ -215,6 +288,7 @@ def _tuplify(x):
 def finalize(sink, tier, seed):
     sink.require('oracle:loads(dumps(s)) == s with equal hash', 100)
     sink.require('protocol01-refused')
+    sink.require('history-cases', 100)
     for h in ('same', 'reregistered'):
         sink.require(f'child:{h}:loaded')
     for h in ('missing', 'other-namespace'):
